@@ -19,7 +19,7 @@ RULE = (
     "Hypothesis draws runs over all families/boxes/starts x all five gradient modes x small maxls (so that the accepted trial is often not the last one evaluated) x gradient scaler x ftarget, "
     "followed by chains of 0..3 restarts. For the result and every callback state the harness recomputes f (and the callable gradient) at the reported x and compares bitwise; nfev/njev are compared "
     "with the call log (plus the checkpoint's counters after a restart). non-trivial = the last point the objective was evaluated at differs from result.x, or the history contains a restart; "
-    "distinct = distinct history spec"
+    "distinct = distinct history spec; a fifth of the problems are also translated far from the origin (x -> x+T, |T| = 1e2..1e6: bounds and iterates of large magnitude compared with the box)"
 )
 ASSUMPTIONS = ["the harness closures are pure and are the very functions the solver called, so bit equality is sound", "restart chains do not re-supply a gradient scaler (R12)"]
 
@@ -105,7 +105,7 @@ def check(spec, stats=None):
 @st.composite
 def strategy(draw):
     r = draw(run_spec(families=ALL_FAMILIES, n_max=8, jac_modes=("callable", "callable", "callable", None, "2-point", "3-point", "cs"),
-                      maxiter=(0, 30), maxfun=(1, 150), small_ls=True, units=True, extras=True, ftols=(0.0, 1e-12, 1e-5), gtols=(1e-8, 1e-5, 1e-3),
+                      maxiter=(0, 30), maxfun=(1, 150), small_ls=True, units=True, shift=True, extras=True, ftols=(0.0, 1e-12, 1e-5), gtols=(1e-8, 1e-5, 1e-3),
                       with_scaler=True, with_ftarget=True, allow_degenerate=True))
     nr = draw(st.sampled_from([0, 0, 1, 2, 3]))
     restarts = [{"dit": draw(st.sampled_from([-2, 0, 1, 3, 10])), "dfun": draw(st.sampled_from([-5, 0, 2, 10, 100])), "maxcor": draw(st.sampled_from([None, None, 1, 4]))}
